@@ -12,6 +12,8 @@ check precedes the instant's control.
   code's `speed < 0 rad/s`, zero when speeds are carried in rad/s);
 * `held_still`: two consecutive held instants have all speeds and accelerations zero and equal
   positions;
+* `engage_only_if`: a powertrain that was not held becomes held only if it is self-locking and the duty in force
+  is null or the advanced motor speed opposes it (C03's "clamped only if self-locking engages at that instant");
 * `release_only_if`: a held powertrain is released only when the motor's (previously recorded)
   net torque points in the direction commanded by the duty in force.
 * history level — `run_safe`, `first_safe`, `schedule_safe`: the four clauses above hold between
@@ -120,6 +122,38 @@ theorem release_only_if (c : Cfg) (s s' : St) (t : Q) (hlocked : s.locked = true
             · rw [hlocked] at hrel; simp at hrel
           · rw [hlocked] at hrel; simp at hrel
 
+
+/-- C13 / C03 ("clamped to zero only if self-locking engages at that instant"): a powertrain that was not held
+    becomes held at an instant only if it is self-locking and the duty cycle in force is null or the (advanced,
+    not yet clamped) motor speed opposes it -/
+theorem engage_only_if (c : Cfg) (s s' : St) (t : Q) (hunl : s.locked = false)
+    (h : compute c s t = .ok s') (hl : s'.locked = true) :
+    c.sl = true ∧
+      (s.pwm = 0 ∨ (0 < s.pwm ∧ (upstream (c.links.map (·.ratio)) s.speed).headD 0 < -c.tolW) ∨
+        (s.pwm < 0 ∧ c.tolW < (upstream (c.links.map (·.ratio)) s.speed).headD 0)) := by
+  unfold compute at h; simp only at h
+  split at h
+  · simp at h
+  · split at h
+    · simp at h
+    · split at h
+      · simp at h
+      · simp only [Except.ok.injEq] at h; subst h
+        dsimp only at hl
+        unfold checkLock at hl
+        split at hl
+        · rename_i hc
+          simp only [Bool.and_eq_true, Bool.or_eq_true, decide_eq_true_eq, beq_iff_eq] at hc
+          exact ⟨hc.1, by
+            rcases hc.2 with (h0 | ⟨hp, hs⟩) | ⟨hn, hs⟩
+            · exact Or.inl h0
+            · exact Or.inr (Or.inl ⟨hp, hs⟩)
+            · exact Or.inr (Or.inr ⟨hn, hs⟩)⟩
+        · split at hl
+          · split at hl
+            · simp at hl
+            · rw [hunl] at hl; simp at hl
+          · rw [hunl] at hl; simp at hl
 
 /-- what C13 demands between two consecutive instants `a`, `b` of a run on a self-locking powertrain:
     sign safety of the motor speed w.r.t. the duty cycle in force (the one recorded at `a`), standstill
